@@ -19,6 +19,7 @@ Apply(w, s) ==
     [] s.a = "Restart" -> Restart(w)
     [] s.a = "RestartReloadFails" -> RestartReloadFails(w)
     [] s.a = "Tick"    -> Tick(w)
+    [] s.a = "Reconfig" -> Reconfig(w)          \* (a reload that changes only the rules samples are counted by)
     [] s.a = "SetHead" -> SetHead(w, s.n)
 
 StatusOf(p, h) == LET S == {x \in Rng(p.status) : x.h = h} IN CHOOSE x \in S : TRUE
